@@ -65,8 +65,14 @@ func Register[C any](prop, leg string, check func(C, *rec.Rec) error) {
 func RunRandom[C any](t *testing.T, prop, leg string, gen func(*rapid.T) C, check func(C, *rec.Rec) error) {
 	r := rec.New(prop, leg)
 	defer r.Flush()
+	trace := os.Getenv("VERIF_TRACE_CASES") != ""
 	rapid.Check(t, func(rt *rapid.T) {
 		c := gen(rt)
+		if trace {
+			// second run of a shard whose process died: remember the case
+			// that is about to be executed
+			traceCase(prop, leg, c)
+		}
 		err := guarded(check, c, r)
 		if err != nil && !r.Suppress(err) {
 			if _, ok := err.(*rec.Violation); ok {
@@ -105,6 +111,9 @@ func (e *Enum[C]) Mine() bool {
 }
 
 func (e *Enum[C]) Do(c C) {
+	if os.Getenv("VERIF_TRACE_CASES") != "" {
+		traceCase(e.r.Prop, e.r.Leg, c)
+	}
 	err := guarded(e.check, c, e.r)
 	if err != nil && !e.r.Suppress(err) {
 		if _, ok := err.(*rec.Violation); ok {
@@ -186,3 +195,17 @@ func guarded[C any](check func(C, *rec.Rec) error, c C, r *rec.Rec) (err error) 
 }
 
 func valParse(s string) (interface{}, error) { return val.Parse(s) }
+
+// traceCase writes the case that is about to run as a replay file, so that
+// a case which kills the whole process (stack overflow, fatal runtime
+// error) can be named and re-executed.
+func traceCase(prop, leg string, c interface{}) {
+	raw, _ := json.Marshal(c)
+	rf := rec.ReplayFile{Prop: prop, Leg: leg, Message: "the process died while this case was running (fatal runtime error, e.g. stack overflow)", Case: raw}
+	out, _ := json.MarshalIndent(rf, "", " ")
+	d := os.Getenv("VERIF_OUT_DIR")
+	if d == "" {
+		d = os.TempDir()
+	}
+	os.WriteFile(filepath.Join(d, "lastcase.json"), out, 0o644)
+}
